@@ -37,7 +37,7 @@ def examples(tier):
 @st.composite
 def strategy(draw, tier="quick"):
     boost = draw(st.sampled_from([True, True, False]))
-    g = draw(gen.grammar(regimes=["BOOL", "BOOL", "FLOAT"], boost=boost, max_terms=4, **gen.size(tier)))
+    g = draw(gen.grammar(regimes=["BOOL", "BOOL", "FLOAT"], boost=boost, max_terms=4, symbols=True, tiny=True, **gen.size(tier)))
     return {
         "g": g,
         "alg": draw(st.sampled_from(["earley", "cky"])),
@@ -55,9 +55,11 @@ def check(case, ctx):
     M = model(g["regime"])
     B = model("BOOL")
     # Boolean skeleton + EOS, as data
-    V = list(g["V"])
+    from vf.cfgref import sym
+
+    V = [sym(v) for v in g["V"]]
     VE = V + [EOS]
-    rules = [(True, "$S", (g["S"], EOS))] + [(True, h, tuple(b)) for w, h, b in g["rules"]]
+    rules = [(True, "$S", (g["S"], EOS))] + [(True, h, tuple(sym(y) for y in b)) for w, h, b in g["rules"]]
     GE = RG(B, "$S", VE, rules)
     ctx.cls(*gen.classify(g), "regime:" + g["regime"], "alg:" + case["alg"])
 
